@@ -522,6 +522,11 @@ func (c *controller) drive(sched [][]string, start func(), mainDone func() bool,
 		c.release(who)
 		steps++
 		if act == "MainReturn" {
+			// the model's MainReturn reads the handler and returns in one step: let Compile return before
+			// any other goroutine is freed (a task running on could otherwise report in between)
+			for w := 0; w < 20000 && !mainDone(); w++ {
+				time.Sleep(100 * time.Microsecond)
+			}
 			break
 		}
 		if !c.quiesce(mainLive, 3*time.Second) {
